@@ -2,3 +2,4 @@ SPECIFICATION Spec
 INVARIANT StatusZeroIffCompleted
 INVARIANT NoMinimisationAfterNoMatch
 INVARIANT UsageBeforeAnyRun
+INVARIANT NoExecBeforeMinimisation
